@@ -57,8 +57,8 @@ def check_definition(case):
     spec = case["comp"]
     bank, comp = _build(spec)
     L, S = comp.frame_length, comp.frame_shift
-    if L < 1 or S < 1 or S > L:
-        raise Discard()
+    if L < 1 or S < 1 or (S > L and spec["kaldi_shift"]):
+        raise Discard()  # (with kaldi_shift and a shift above the length compute_full itself rejects most signals)
     style = spec["frame_style"]
     if style is None:
         style = "centered" if bank.is_zero_phase else "causal"
@@ -161,6 +161,10 @@ def check_default_length(case):
 @st.composite
 def _cases(draw, rates=(1000,), max_len=64):
     comp = draw(stft_specs(rates=rates, max_len=max_len))
+    if draw(st.integers(0, 9)) == 0:
+        # sub-sampled analysis: a frame shift above the frame length is a constructible configuration too
+        comp["S"] = comp["L"] + draw(st.one_of(st.integers(1, 4), st.integers(1, 2 * comp["L"] + 1)))
+        comp["kaldi_shift"] = False
     L = comp["L"]
     n = draw(
         st.one_of(
@@ -195,6 +199,12 @@ def _default_cases(draw):
     rate = draw(st.sampled_from([1000, 2000, 8000]))
     bank = bank_specs(rates=[rate], max_filts=4, allow_l2="gabor", min_width_frac=0.3)
     comp = draw(stft_specs(bank=bank, default_len=True))
+    if draw(st.integers(0, 9)) == 0:
+        # hundreds of narrow filters on a high-rate recording: here the 2*rate/bandwidth term of the default length exceeds
+        # the longest temporal support
+        comp["bank"] = {"alias": "tri", "num_filts": draw(st.sampled_from([200, 300, 400])), "low_hz": 20.0, "high_hz": None,
+                        "sampling_rate": draw(st.sampled_from([44100, 48000, 96000])), "scale": {"alias": draw(st.sampled_from(["mel", "bark"]))},
+                        "analytic": False, "numtype": "float"}
     return {"comp": comp}
 
 
